@@ -106,6 +106,29 @@ theorem Abs_fill (t : Table) (M : Nat → Option Nat) (abs : Abs t M) (k v q : N
     · intro e; right; exact e.symm
   · simp [hk]; exact abs k' v'
 
+/-! ### the freshly cleared table -/
+
+/-- `N` buckets all holding the invalid key, `entries_ = 0` -/
+def emptyTable (N : Nat) : Table := { s := fun _ => none, N := N, entries := 0 }
+
+theorem occ_empty : ∀ n, occ (fun _ => none) n = 0 := by
+  intro n; induction n with
+  | zero => rfl
+  | succ n ih => simp [occ, ih]
+
+theorem Inv_empty (h : Nat → Nat) (N : Nat) (hN : 0 < N) : Inv h (emptyTable N) := by
+  refine ⟨⟨hN, ?_, ?_⟩, ⟨0, hN, rfl⟩, ?_⟩
+  · intro p q k v w _ _ h1; cases h1
+  · intro p k v _ h1; cases h1
+  · show occ (fun _ => none) N ≤ 0
+    rw [occ_empty]; exact Nat.le_refl _
+
+theorem Abs_empty (N : Nat) : Abs (emptyTable N) (fun _ => none) := by
+  intro k v
+  constructor
+  · rintro ⟨p, _, h1⟩; cases h1
+  · intro h1; cases h1
+
 /-! ### `Find` -/
 
 theorem scan_stored (h : Nat → Nat) (t : Table) (inv : Inv h t) (k p v : Nat) (hp : p < t.N)
